@@ -18,6 +18,27 @@ CHECKS = {
  "C12": ("property-based testing (proptest; reference model = interceptor operations applied to an ordered header multimap and an extension model) plus an enumerated method x version x URI table",
          "Random requests (7 methods, 5 HTTP versions, origin/absolute/authority URIs, repeated/reserved/-bin/opaque headers, typed extensions, non-Clone body) through InterceptedService in its three forms with scripted interceptor operations or a rejecting status; the recording inner service and the returned response are compared with the model; rejects are read back with independent percent/base64 decoders.",
          "Order across different header names is not compared; number of extensions not compared.", "4/C12"),
+ "C02": ("property-based testing over complete client<->server scenarios (reference model = handler/caller script), real hyper/h2 over an in-memory pipe with generated fragmentation, single-threaded runtime with paused virtual clock",
+         "Generated services (working tree's tonic-build) x four call shapes x handler scripts (messages, delays, OK / error status returned by the handler or as a stream item, metadata) x caller requests x pipe read-size/Pending schedules x scheduler seed; the client-visible outcome and the handler-visible request are compared with the script; a virtual-time watchdog decides completion.",
+         "One connection, <=6 messages per direction, <=48 KiB per message; schedules inside hyper/h2 are explored through fragmentation, injected Pendings and the seeded select! order, not enumerated.", "4/C02"),
+ "C10": ("property-based testing (mutation-based path generation against an exact-string routing model; metamorphic relation over registration order) plus enumerated singleton/pair configurations",
+         "Subsets and orders of a pool of 10 generated services with adversarial names (prefixes, case variants, package that looks like a service name), five NamedService wrapper forms, three registration APIs; paths = exact, one/two-edit mutants, case flips, 44 segment shapes, percent-encodings, query suffixes; oracle: dispatched iff the path is exactly /Service/Method of a registered service, else HTTP 200 + grpc-status 12 and no handler ran; same verdict for two registration orders.",
+         "Driven in-process through Routes as a tower service (the network path is covered by C02); paths http::Uri cannot represent are skipped and counted.", "4/C10"),
+ "C11": ("property-based testing over generated programs (random .proto grammar -> protox -> tonic-build in memory; syn visitor extraction vs descriptor) plus an exhaustive regenerate-and-byte-compare of the committed generated files",
+         "Random service definitions (packages, identifier shapes incl. Rust keywords, 1-6 methods over the four streaming kinds, nested/imported message types, builder options, manual builder with route names) are compiled by the working tree's generator; client path literals, shapes and types are extracted with syn and compared with the server's match arms/shapes/types and with a table computed from the descriptor; the bootstrap generator is re-run on a scratch copy and its 8 output files byte-compared with the committed ones.",
+         "Generated code is parsed, not compiled (the harness's own build.rs compiles four-shape services); regeneration uses a scratch rsync copy under /tmp that is deleted afterwards.", "4/C11"),
+ "C16": ("property-based testing (independent grpc-web decoder as oracle) plus the enumerated method x version x content-type table; coverage-guided fuzzing of the base64 request path in the thorough tier",
+         "GrpcWebLayer over a scripted inner service: response frames cut at arbitrary positions then trailers (repeated names, colons, spaces, -bin, obs-text) or trailers-only, binary and text modes; request bodies binary or one padded base64 run cut inside quanta; judged by the harness's own grpc-web / base64-quantum / trailer-block decoders; 405 / 400 / pass-through table enumerated completely.",
+         "Text requests are one padded base64 run (what browsers send); non-grpc-web over HTTP/0.9 and HTTP/3 not judged.", "4/C16"),
+ "C18": ("model-based property testing (stateful histories against a status/generation reference model) plus a multi-threaded stress family with invariant oracle",
+         "Histories (<=30 ops) of set/clear/check/watch/next/drop over services {'', a, b} through the generated Health client in-process on a paused single-threaded runtime with quiescence after each op, judged against a generation model that allows coalescing; concurrent writers/watchers on a multi-threaded runtime judged by schedule-independent invariants.",
+         "Stress-family failures may not replay bit-for-bit (true multi-core interleavings); verdicts there use only joins/barriers, never wall-clock.", "4/C18"),
+ "C19": ("property-based testing over generated descriptor sets (independent descriptor walker as oracle; v1 vs v1alpha differential)",
+         "Descriptor trees (1-4 files, packages, nesting depth 3, oneofs, nested enums, services, imports, duplicate/split/unregistered registration, encoded vs struct sets, service-name toggles) are registered and every declared name, file name, service list and name mutants are queried through the generated v1 and v1alpha clients in-process; answers are compared with the walker's name->file map and with each other.",
+         "Enum values may resolve under either naming convention; leading-dot / empty / bare-package names only need an answer.", "4/C19"),
+ "C20": ("property-based testing (round trip through the header encoding + own protobuf reader of the embedded google.rpc.Status) and coverage-guided fuzzing of the decode side",
+         "All ten standard detail kinds as ErrorDetails sets and ordered Vec<ErrorDetail> lists with Unicode strings, repeated violations, boundary durations and metadata are attached, sent through add_header/from_header_map and recovered field by field; the embedded Status is decoded by the harness's own wire reader; mutated/garbage/foreign encodings must never panic and set/vec/getter views must agree.",
+         "On a list with a repeated kind check_error_details may keep any one item; unknown type URLs and out-of-range durations only need to be total.", "4/C20"),
 }
 NOT_YET = {}
 def main():
